@@ -522,6 +522,53 @@ def check_subs_free(d):
     return _rec(True, input=P)
 
 
+def pool_variants(d):
+    """Descriptions with the same summand whose top-level pools have the same SET of values but another multiplicity or order."""
+    if d[0] != "sum" or not d[2]:
+        return []
+    out = []
+    for k, (i, pool) in enumerate(d[2]):
+        uniq = tuple(dict.fromkeys(pool))
+        for v in (uniq, tuple(reversed(pool)), (pool[0], *pool), (*pool, pool[-1])):
+            if tuple(v) != tuple(pool):
+                out.append((d[0], d[1], [*d[2][:k], (i, tuple(v)), *d[2][k + 1:]]))
+    seen, res = set(), []
+    for v in out:
+        if repr(v) not in seen:
+            seen.add(repr(v))
+            res.append(v)
+    return res
+
+
+def check_session(d):
+    """Several sums in one session: evaluation, substitution and term collection of one sum are not disturbed by another sum with the
+    same summand and the same set of pool values (SymPy caches subs and collects like terms by == / hash, so two sums may only compare
+    equal when they denote the same value)."""
+    P = mk(d)
+    want = ref(d, {})
+    y = sp.Symbol("y")
+    for k, dv in enumerate(pool_variants(d)):
+        Pv = mk(dv)
+        want_v = ref(dv, {})
+        if (P == Pv or hash(P) == hash(Pv) and P == Pv) and not same(want, want_v):
+            return _rec(False, input=f"{P} == {Pv}", observed="compare equal", expected=f"different sums ({want} vs {want_v}) are different expressions",
+                        what="equality of PoolSum respects its value")
+        for n in sorted(free_of(d)):
+            t = sp.Integer(101 + k) + y
+            Pv.subs(sp.Symbol(n), t).doit()  # the other sum first
+            got = P.subs(sp.Symbol(n), t).doit()
+            if not same(got, ref(d, {n: t})):
+                return _rec(False, input=f"{Pv}.subs({n}, {t}); then {P}.subs({n}, {t}).doit()", observed=got, expected=ref(d, {n: t}),
+                            what="substitution in one sum after the same substitution in a sum with other pool multiplicities")
+        got = (P + 2 * Pv).doit()
+        if not same(got, want + 2 * want_v):
+            return _rec(False, input=f"({P} + 2*{Pv}).doit()", observed=got, expected=want + 2 * want_v, what="linear combination of two sums")
+        got = (P - Pv).doit()
+        if not same(got, want - want_v):
+            return _rec(False, input=f"({P} - {Pv}).doit()", observed=got, expected=want - want_v, what="difference of two sums")
+    return _rec(True, input=P)
+
+
 def bound_of(d):
     return [i for i, _ in d[2]] if d[0] == "sum" else []
 
@@ -595,7 +642,7 @@ def first_failure(items, fn):
 def search(model=None, tier="quick", skip_known=True):
     """Property-level search on the real class (replay of lemma obligations)."""
     fam = family(tier)
-    for fn in (check_doit, check_evaluate_shallow, check_free_symbols, check_subs_free, check_subs_bound):
+    for fn in (check_doit, check_evaluate_shallow, check_free_symbols, check_subs_free, check_subs_bound, check_session):
         r, _ = first_failure(fam, fn)
         if r["reproduced"]:
             return r
@@ -972,6 +1019,8 @@ def build_instances(chk: Check) -> None:
         group("subs_of_free_symbol_commutes_with_evaluation", check_subs_free, items, F + "_eval_subs", cat)
     group("doit(deep=False)==evaluate()", check_evaluate_shallow, fam, F + "doit", "all")
     group("subs_of_summation_index_leaves_sum_unchanged", check_subs_bound, fam, F + "_eval_subs", "all")
+    for cat in cats:
+        group("several_sums_in_one_session_keep_their_values", check_session, [x for x in fam if x[0] == cat], F + "_hashable_content", cat)
     cf = cleanup_family(chk.tier)
     ccats = []
     for c, _ in cf:
@@ -1026,3 +1075,7 @@ def build(chk: Check) -> None:
     build_cleanup(chk, shp)
     build_subs(chk)
     build_instances(chk)
+    own = [m for m in ("_hashable_content", "__eq__", "__hash__", "__ne__", "compare") if m in PoolSum.__dict__]
+    chk.assume("SymPy's Basic.__eq__/__hash__ compare type and args (dependency contract); PoolSum.__new__ stores (expression, *(index, Tuple(values))) in args (proved: new[...] obligations)")
+    chk.struct("PoolSum.equality_is_structural_equality_of_args", not own, F + "_hashable_content", witness=own, lemma=True, replay=search,
+               note="with args = (expression, (index, ordered values with multiplicity)...), equal sums have equal pools, hence equal values (for all sums)")
